@@ -55,6 +55,21 @@ func genC11(seed uint64, tier string) *Plan {
 		}
 		p.Ops = append(p.Ops, Op{K: "q", S: q.SQL()})
 	}
+	if t := &p.Tables[0]; len(t.PartitionBy) > 0 && r.Bool(0.5) {
+		// directed at the pushdown decision: the inner level groups by every
+		// partition key, the outer level by functions of them that are or are
+		// not one-to-one, next to the remaining keys
+		pk := PickOne(r, t.PartitionBy)
+		fn := map[string][]string{"da": {"SUBSTR(da, 0, 1) AS k0", "CONCAT('_', da) AS k0", "LEN(da) AS k0"}, "db": {"CONCAT('v', db) AS k0", "ANY(db, db) AS k0"}, "dc": {"CONCAT('v', dc) AS k0", "ANY(dc, dc) AS k0"}}[pk]
+		outer := []string{PickOne(r, fn)}
+		for _, k := range t.PartitionBy {
+			if k != pk {
+				outer = append(outer, k)
+			}
+		}
+		inner := PickOne(r, []string{"*", strings.Join(t.PartitionBy, ", ")})
+		p.Ops = append(p.Ops, Op{K: "q", S: fmt.Sprintf("SELECT _points FROM (SELECT * FROM t0 GROUP BY %s) GROUP BY %s", inner, strings.Join(outer, ", "))})
+	}
 	return p
 }
 
@@ -195,6 +210,13 @@ func execC11(e *Env, p *Plan) error {
 				if strings.Contains(op.S, "CROSSTAB") && (strings.Contains(op.S, "GROUP BY _,") || strings.Contains(op.S, ", _,") || strings.HasSuffix(op.S, ", _")) {
 					e.Count("tolerated.C10-underscore-group-with-crosstab")
 					continue
+				}
+				if strings.Contains(op.S, "LEN(") && pushdown {
+					// goexpr.Len reports its argument as a one-to-one parameter
+					if e.Known("C11-len-counts-as-one-to-one") {
+						continue
+					}
+					return &Violation{"len-counts-as-one-to-one", fmt.Sprintf("%q is pushed down whole over %d partitions although LEN() maps different values of a partition key to the same group (goexpr.Len.WalkOneToOneParams walks its argument; planner.TestPlans expects this pushdown): %s", op.S, n, diff)}
 				}
 				return &Violation{"plans-differ", fmt.Sprintf("%q over %d partitions (placement respects partitionBy %v; plan:\n%s) differs from the local plan over the union: %s", op.S, n, t.PartitionBy, planText, diff)}
 			}
